@@ -158,6 +158,30 @@ Job gen_ini(Src &s, Ctx &c, bool *nontriv) {
             doc += g.lines(6, true);
             nincl++;
         }
+        if (s.chance(1, 3)) {
+            // a file that is included more than once: twice by the main file, by the main file and again by a file the main
+            // file includes (a diamond - no cycle), or only through a nested include.  It holds plain literal entries; every
+            // splice defines them again under the section in effect at that place.
+            int pat = (int)s.range(0, 2), nk = (int)s.range(1, 3);
+            std::vector<std::pair<std::string, std::string>> ck; std::string common;
+            for (int q = 0; q < nk; q++) {
+                std::string key = "c" + std::to_string(q) + ident(s, 3), v = IniGen::trim(g.text_piece());
+                if (v.find('$') != std::string::npos) v = "x";
+                common += key + std::string(1, sep) + v + "\n"; ck.push_back({key, v});
+            }
+            write_file(slot_dir() + "/common.def", common);
+            auto splice = [&]() { for (auto &kv : ck) g.define(g.section.empty() ? kv.first : g.section + "." + kv.first, kv.second); };
+            const std::string dir_common = "@INCLUDE common.def\n", dir_sub = "@INCLUDE sub.conf\n";
+            if (pat == 0) { doc += dir_common; splice(); doc += g.lines(4, true); doc += dir_common; splice(); nincl += 2; }
+            else {
+                if (pat == 1) { doc += dir_common; splice(); doc += g.lines(3, true); nincl++; }
+                std::string sub = g.lines(4, true); sub += dir_common; splice(); sub += g.lines(3, true);
+                write_file(slot_dir() + "/sub.conf", sub);
+                doc += dir_sub; nincl += 2;
+            }
+            doc += g.lines(4, true);
+            c.tag(pat == 0 ? "ini_same_file_included_twice" : pat == 1 ? "ini_diamond_include" : "ini_nested_include");
+        }
     }
     // the value text generator never emits '$' outside references and never a key that looks like a section header
     c.op("INI %s, sep '%c', %zu entries expected, %d refs (%d nested, %d env), %d sections, %d includes: %s", usefile ? "file" : "string", sep, g.expect.size(), g.nrefs, g.nnested, g.nenv, g.nsections, nincl, hexs(doc, 300).c_str());
